@@ -97,10 +97,15 @@ structure GemmToMatmul where
   transA : Bool := false
   transB : Bool := false
 
-def gemmToMatmulCheck (p : GemmToMatmul) : Bool :=
+/-- Before commit ae98696 (finding C05-N5, fixed): `transA`/`transB` were not looked at. -/
+def gemmToMatmulCheckPrefix (p : GemmToMatmul) : Bool :=
   p.alphaAttr == some 1 && p.betaAttr == some 1 && matmulReshapeCheck p.core
 
 def gemmToMatmulHyp (p : GemmToMatmul) : Bool := !p.transA && !p.transB
+
+/-- `_check_gemm_to_matmul_add` as it is now: no transposed operand, then `check_if_not_need_reshape`. -/
+def gemmToMatmulCheck (p : GemmToMatmul) : Bool :=
+  p.alphaAttr == some 1 && p.betaAttr == some 1 && gemmToMatmulHyp p && matmulReshapeCheck p.core
 
 /-! ## Hard-swish / hard-sigmoid (`_fuse_hardswish.py`) -/
 open OV.C05.Unit
@@ -179,9 +184,11 @@ structure SliceSplit where
   end0 : Option (List Int)
   begin1 : Option (List Int)
   end1 : Option (List Int)
+  /-- the model's default-domain opset is ≥ 18 (`Split.num_outputs` exists) -/
+  opsetGe18 : Bool := true
 
-/-- `SlicesSplit.check`. -/
-def SliceSplit.check (p : SliceSplit) : Bool :=
+/-- `SlicesSplit.check` before commit 462c374 (findings C05-N9 / C05-N10, fixed). -/
+def SliceSplit.checkPrefix (p : SliceSplit) : Bool :=
   match p.axes0, p.axes1 with
   | some a0, some a1 =>
     if a0 != a1 then false else
@@ -202,6 +209,13 @@ def SliceSplit.check (p : SliceSplit) : Bool :=
         | _ => false
       | _, _, _, _ => false
   | _, _ => false
+
+/-- `SlicesSplit.check` as it is now: additionally the last dim is even and the opset is ≥ 18. -/
+def SliceSplit.check (p : SliceSplit) : Bool :=
+  p.checkPrefix &&
+  (match p.xShape.bind List.getLast? with
+   | some (.known d) => d % 2 == 0
+   | _ => false) && p.opsetGe18
 
 /-- ONNX `Split(num_outputs=2)` chunk sizes on a dim `d`: `ceil(d/2)` and the rest. -/
 def specSplit2 (d : Nat) : Nat × Nat := ((d + 1) / 2, d - (d + 1) / 2)
